@@ -770,6 +770,8 @@ var apiFaultStatus = map[string]*StatusErr{
 	"422":    {Code: 422, Reason: "Invalid", Message: "injected: invalid"},
 	"500":    {Code: 500, Reason: "InternalError", Message: "injected: internal error"},
 	"403":    {Code: 403, Reason: "Forbidden", Message: "injected: forbidden"},
+	"503":    {Code: 503, Reason: "ServiceUnavailable", Message: "injected: the server is currently unable to handle the request"},
+	"504":    {Code: 504, Reason: "Timeout", Message: "injected: request did not complete within the allotted time"},
 }
 
 // Serve answers one parked request, possibly with an injected fault.
